@@ -352,6 +352,7 @@ static void ghost_havoc(void) {
   g.role = nondet_int(); g.me = nondet_ulong(); g.stored = nondet_bool(); g.fulfilled = nondet_bool(); g.linked = nondet_bool();
   g.n = nondet_ulong(); g.dead = nondet_ulong(); g.decrefs = nondet_ulong(); g.last_call_decrefs = nondet_ulong();
 }
+Core* g_me_node;               /* bound by assignment in the prologue of the function under proof (CBMC dereferences by value set) */
 #define HEAD_OF(n) ((n) ? (uintptr_t)&pool[0] : kEmpty)
 #define INV(W) ( g.stored <= 1 && g.fulfilled <= 1 && g.linked <= 1 && g.n <= POOL_MAX                  \
    && (((W) == kResult) == g.fulfilled) && (!g.fulfilled || g.stored) && g.me != kEmpty && g.me != kResult )
@@ -387,7 +388,7 @@ static inline void rg_write(RG_WORD* p, RG_WORD o, RG_WORD n, int mo, int kind) 
   if (g.role == ROLE_PUSH) {
     __CPROVER_assert(o != kResult, "G_push: never over kResult");
     __CPROVER_assert(n == g.me && !g.linked, "G_push: pushes its own fresh node, once");
-    __CPROVER_assert(((Core*)g.me)->next == (Core*)o, "G_push: the node is linked to the head it replaced");
+    __CPROVER_assert(g_me_node->next == (Core*)o, "G_push: the node is linked to the head it replaced");
     __CPROVER_assert(MO_REL(mo), "C04: MO give: registering publishes the callback object, needs release");
     g.linked = 1;
   } else {
@@ -441,7 +442,7 @@ __CPROVER_ensures(g.me == OLD(g.me))
 """ % FRESH2
     harness = ('void harness(void) {\n  ghost_havoc();\n  BaseCore* self; InlineCore* callback;\n  int r = SetCallbackImpl(self, callback);\n'
                '  if (r) VF_CANARY("registered"); else VF_CANARY("already fulfilled");\n}\n')
-    src = SHARED + '#define Shared 1\n#define SetCallbackImpl_T(SH, cb) SetCallbackImpl(self, cb)\n' + contract_set + '{' + c_set + '}\n' + harness
+    src = SHARED + '#define Shared 1\n#define SetCallbackImpl_T(SH, cb) SetCallbackImpl(self, cb)\n' + contract_set.replace('callback->next, g)', 'callback->next, g, g_me_node)') + '{ g_me_node = callback; /* ghost prologue */' + c_set + '}\n' + harness
     out.append(Job('base_core/shared/SetCallbackImpl', props, src, 'harness', enforce='SetCallbackImpl', loop_contracts=True, funcs=[b_set],
                    canaries=2, expect=[r'postcondition', r'G_push', r'loop_invariant_step|invariant after step'], meta={'fn': 'SetCallbackImpl', 'shared': 1}))
     # --- SetInlineImpl<ST,true> ---------------------------------------------------------------------
